@@ -34,6 +34,8 @@ def run(ck):
     fq = repo.find_function("Component.get_cooling_heat")
     for f in (fp, fh, fc, fq):
         ck.analysed_function(f)
+    from ..purity import purity
+    purity(ck, repo, [fp, fh, fc, fq])
     outs_p = analyse(repo, fp, cfg)
     outs_h = analyse(repo, fh, cfg)
     ck.analysed["paths"] += len(outs_p) + len(outs_h)
